@@ -528,6 +528,7 @@ impl<'input> Tokenizer<'input> {
             // TODO: Unicode escape codes
             Some((end, b)) => {
                 let ch = self.chars.chars.as_str_suffix().restore_char(&[b]);
+                self.skip_continuation_bytes();
                 self.recover(start, end, UnexpectedEscapeCode(ch), b)
                     .map(|s| s.value)
             }
@@ -625,27 +626,39 @@ impl<'input> Tokenizer<'input> {
         }
     }
 
+    /// Skips the rest of the bytes of the character whose first byte has just been consumed
+    fn skip_continuation_bytes(&mut self) {
+        while let Some((_, b)) = self.lookahead() {
+            if b & 0xC0 == 0x80 {
+                self.bump();
+            } else {
+                break;
+            }
+        }
+    }
+
     fn char_literal(&mut self, start: Location) -> Result<SpannedToken<'input>, SpError> {
         let ch = match self.bump() {
-            Some((start, b'\\')) => self.escape_code(start)?,
+            Some((start, b'\\')) => self.escape_code(start)? as char,
             Some((end, b'\'')) => {
                 return self.recover(start, end, EmptyCharLiteral, Token::CharLiteral('\0'));
             }
-            Some((_, ch)) => ch,
+            Some((_, ch)) => {
+                let ch = self.chars.chars.as_str_suffix().restore_char(&[ch]);
+                self.skip_continuation_bytes();
+                ch
+            }
             None => return self.eof_recover(Token::CharLiteral('\0')),
         };
 
         match self.bump() {
-            Some((_, b'\'')) => {
-                let ch = self.chars.chars.as_str_suffix().restore_char(&[ch]);
-                Ok(pos::spanned2(
-                    start,
-                    self.next_loc(),
-                    Token::CharLiteral(ch),
-                ))
-            }
+            Some((_, b'\'')) => Ok(pos::spanned2(
+                start,
+                self.next_loc(),
+                Token::CharLiteral(ch),
+            )),
             Some((end, _)) => {
-                let ch = self.chars.chars.as_str_suffix().restore_char(&[ch]);
+                self.skip_continuation_bytes();
                 self.recover(start, end, UnterminatedCharLiteral, Token::CharLiteral(ch))
             } // UnexpectedEscapeCode?
             None => self.eof_recover(Token::CharLiteral('\0')),
@@ -836,6 +849,7 @@ impl<'input> Iterator for Tokenizer<'input> {
 
                 ch => {
                     let ch = self.chars.chars.as_str_suffix().restore_char(&[ch]);
+                    self.skip_continuation_bytes();
                     let end = self.next_loc();
                     if let Err(err) = self.recover(start, end, UnexpectedChar(ch), ()) {
                         return Some(Err(err));
